@@ -124,7 +124,7 @@ def make(prog, state):
                         # u16::MAX is used only when bytes.len() does not fit in a u16
                         ok = ok and a[2] == 65535
                     else:
-                        ok = ok and a[0] == "field" and a[1][0] == "downcast" and a[1][2] == "Ok" and bool(Call("try_into", Call("len", Path("^bytes")))(a[1][1]))
+                        ok = ok and a[0] == "field" and a[1][0] == "downcast" and a[1][2] == "Ok" and bool(A.Checked(Call("len", Path("^bytes")))(a[1][1]))
                 if ok and len(alts) == 2:
                     return True, "slice end = bytes.len() (when it fits u16) or 65535 (only when bytes.len() > 65535)"
             return False, "TCP payload slice end is not bounded by bytes.len()"
